@@ -19,6 +19,10 @@ class Suite(object):
 
     def __init__(self, schema, class_sources, contracts, globals_=None, executor_cls=None):
         self.schema = {k: (parse_type(v) if isinstance(v, str) else v) for k, v in schema.items()}
+        for k, f in list(self.schema.items()):
+            if f.kind.startswith("map:") and f.opt:
+                # an attribute holding None or a dictionary: the None flag is a boolean field of its own
+                self.schema[k + "$none"] = parse_type("bool")
         self.class_sources = class_sources  # list of module names whose classes are visible
         self.contracts = {}
         for c in contracts:
@@ -111,6 +115,12 @@ def gen_obligations(suite, c, bits=None):
             except Unsupported as e:
                 ex.obs.append(Ob("%s.return-type@L%s" % (c.name, ln), s.pc, z3.BoolVal(False), ln, "type"))
                 continue
+        if c.returns:
+            # the function returns (an alias of) a modelled container reached as <expr> in the post-state
+            want = ex.spec_value(c.returns, s)
+            ok = (val.kind == want.kind and isinstance(val.x, tuple) and isinstance(want.x, tuple) and val.x[2] == want.x[2])
+            g = z3.And(val.x[0].t == want.x[0].t, z3.Not(ex.is_none(val))) if ok else z3.BoolVal(False)
+            _add(ex, "%s.returns[%s]%s" % (c.name, c.returns, "@L%s" % ln if ln else "@end"), s.pc, g, ln, "post")
         for nm, ens in c.ensures_items():
             ex.cur_name = c.name
             g = ex.spec_eval(ens, s, old, val)
@@ -169,7 +179,7 @@ def _frame_obs(ex, c, s, old, ln):
         a0, n0 = old.heap.get(key, (arr, na))
         if arr.eq(a0) and (na is None or na.eq(n0)):
             continue
-        al = allowed.get(key, [])
+        al = allowed.get(key[:-5] if key.endswith("$none") else key, [])
         if al == "*":
             continue
         r = z3.Const("frame!r", Ref)
